@@ -300,7 +300,11 @@ impl Oracle for MtuOracle {
     }
 }
 
-fn run(ch: Chooser, ctx: &RunCtx, mut opts: BasicOpts, tune: bool) -> RunOut {
+fn run(ch: Chooser, ctx: &RunCtx, opts: BasicOpts, tune: bool) -> RunOut {
+    run2(ch, ctx, opts, tune, false)
+}
+
+fn run2(ch: Chooser, ctx: &RunCtx, mut opts: BasicOpts, tune: bool, fine: bool) -> RunOut {
     let mut w = World::from_ctx(ch, ctx);
     w.drv.track_probe = true;
     opts.allow_corrupt = false;
@@ -317,6 +321,12 @@ fn run(ch: Chooser, ctx: &RunCtx, mut opts: BasicOpts, tune: bool) -> RunOut {
             k.stream_window = k.stream_window.max(16_384);
             k.conn_window = k.conn_window.max(16_384);
             k.send_window = k.send_window.max(20_000);
+            if fine {
+                // a search that goes down to the byte, restarted often
+                k.mtud = true;
+                k.mtud_upper = *w.ch.pick("c13.fine.upper", &[1452u16, 1203, 1210, 1300, 4000]);
+                k.mtud_params = Some((*w.ch.pick("c13.fine.interval_ms", &[1000u64, 50, 10_000, 600_000]), *w.ch.pick("c13.fine.cooldown_ms", &[2000u64, 100, 60_000]), *w.ch.pick("c13.fine.min_change", &[1u16, 1, 2, 5])));
+            }
             k.sane();
         }
         opts.fixed_knobs = Some((sk, ck));
@@ -371,6 +381,11 @@ fn fam_handshake(ch: Chooser, ctx: &RunCtx) -> RunOut {
     run(ch, ctx, BasicOpts { op_kinds: vec![5, 1], ops_max: 2, big_cert: true, retry: 300, directed_k: 12, directed_max: 3, size_max: 30_000, udp_payload_choices: UDP.to_vec(), link_mtu_choices: vec![1500, 1200, 1452, 65_535], ..Default::default() }, true)
 }
 
+/// searches that go down to the byte on links whose MTU sits just above the minimum
+fn fam_fine_search(ch: Chooser, ctx: &RunCtx) -> RunOut {
+    run2(ch, ctx, BasicOpts { op_kinds: vec![5, 5, 1], ops_max: 3, size_max: 200_000, streams_max: 3, max_drop: 200, udp_payload_choices: UDP.to_vec(), link_mtu_choices: vec![1200, 1201, 1202, 1205, 1230, 1300, 1452, 1500], ..Default::default() }, true, true)
+}
+
 /// quinn's defaults and general worlds
 fn fam_general(ch: Chooser, ctx: &RunCtx) -> RunOut {
     run(ch, ctx, BasicOpts { op_kinds: vec![0, 1, 2, 3, 4, 5, 7], pad_rate: 150, ..Default::default() }, false)
@@ -380,7 +395,8 @@ pub fn spec() -> PropSpec {
     PropSpec {
         id: "C13",
         families: vec![
-            Family { name: "link-changes", f: fam_link_changes, weight: 35 },
+            Family { name: "link-changes", f: fam_link_changes, weight: 30 },
+            Family { name: "fine-search", f: fam_fine_search, weight: 15 },
             Family { name: "discovery", f: fam_discovery, weight: 15 },
             Family { name: "migration", f: fam_migration, weight: 20 },
             Family { name: "handshake", f: fam_handshake, weight: 15 },
